@@ -52,6 +52,8 @@ type Engine struct {
 	redirectMu    sync.Mutex
 	redirectUse   map[string]int
 	repoDir       string
+	funcIdx       map[string]*ssa.Function
+	funcIdxOnce   sync.Once
 }
 
 func (e *Engine) noteRedirect(name string) {
@@ -175,6 +177,7 @@ type HarnessResult struct {
 	CrossChecked  int               `json:"crosschecked_queries"`
 	CrossDisagree []string          `json:"crosscheck_disagreements"`
 	MaxDecisions  int               `json:"max_decisions"`
+	groupIdx      int
 }
 
 type worklist struct {
@@ -359,12 +362,9 @@ func (e *Engine) RunHarness(pkgPath, name string) (*HarnessResult, error) {
 	return res, nil
 }
 
-var funcIndexOnce sync.Once
-var funcIndex map[string]*ssa.Function
-
 func (e *Engine) buildFuncIndexCached() map[string]*ssa.Function {
-	funcIndexOnce.Do(func() { funcIndex = e.buildFuncIndex() })
-	return funcIndex
+	e.funcIdxOnce.Do(func() { e.funcIdx = e.buildFuncIndex() })
+	return e.funcIdx
 }
 
 func hashFunc(fn *ssa.Function) string {
